@@ -80,9 +80,10 @@ SameTok(a, b) == \/ a.val = b.val
 SameSig(a, b) == Len(a) = Len(b) /\ \A i \in 1..Len(a) : SameTok(a[i], b[i])
 SameSigTyped(a, b) == SameSig(a, b) /\ \A i \in 1..Len(a) : a[i].ty = b[i].ty
 
-\* what SerializerUnicode does to text that is not inside '..' / "..": line ends become \n and
-\* blanks before a line end vanish.  A token that spans lines (block comment, backtick or
-\* bracket name, dollar-quoted literal) is rewritten inside: finding C06-serializer-inside-token.
+\* what SerializerUnicode does to whitespace: line ends become \n and blanks before a line end
+\* vanish.  Before repair b89501c it did so to the TEXT outside '..' / "..", so a token spanning
+\* lines (block comment, backtick or bracket name, dollar-quoted literal) was rewritten inside;
+\* the clause naming that (SameSigLoose below) is kept so a return of the defect is named precisely.
 IsBlankC(c) == IsWsChar(c) /\ c \notin {10, 13}
 RECURSIVE NormFrom(_, _, _)
 NormFrom(v, i, pend) ==
